@@ -1,5 +1,5 @@
 (* non-vacuity: concrete values meeting the hypotheses of each theorem *)
-From V Require Import Common.Base C06.TsTokens C06.SkipType C06.TypeGrammar C06.SkipProofs C06.SkipProofs6 C06.TypeArgsExpr C06.Erase C06.Enum.
+From V Require Import Common.Base C06.TsTokens C06.SkipType C06.TypeGrammar C06.SkipProofs C06.SkipProofs6 C06.TypeArgsExpr C06.Erase C06.Enum gen.TsTargetsGen C06.TsTarget.
 
 (* Array<Array<number>> = 1 : the ">>" token is split by the inner list *)
 Example nested_generic :
@@ -72,4 +72,9 @@ Proof. vm_compute. auto. Qed.
 (* f<T>(x) is a call; a < b > c and a < b > -c are comparisons *)
 Example ex_follow : spec_can_follow [(KLParen,false)] = true /\ spec_can_follow [(KIdent 102,false)] = false /\ spec_can_follow [(KMinus,false)] = false
   /\ spec_can_follow [(KIdent 102,true)] = true /\ spec_can_follow [(KRParen,false)] = true.
+Proof. vm_compute. auto. Qed.
+
+(* "ES2022" -> define, "es2021" -> assign, "ESNext" -> define, unrecognised -> esbuild's default *)
+Example ex_targets : map go_target [[69;83;50;48;50;50]; [101;115;50;48;50;49]; [69;83;78;101;120;116]; [101;115;55]] = [Some true; Some false; Some true; None]
+  /\ spec_define 0 (Some [69;83;50;48;50;50]) = true /\ spec_define 0 (Some [101;115;50;48;50;49]) = false /\ spec_define 2 (Some [69;83;50;48;50;50]) = false.
 Proof. vm_compute. auto. Qed.
